@@ -727,17 +727,21 @@ func (m *Manager) publishBlockInternal(ctx context.Context) error {
 		return fmt.Errorf("failed to save block: %w", err)
 	}
 
-	// Update the store height before submitting to the DA layer but after committing to the DB
 	headerHeight := header.Height()
-	if err = m.store.SetHeight(ctx, headerHeight); err != nil {
-		return err
-	}
 
 	newState.DAHeight = m.daHeight.Load()
 	// After this call m.lastState is the NEW state returned from ApplyBlock
-	// updateState also commits the DB tx
+	// updateState also commits the DB tx.
+	// The state is recorded before the chain height: on restart the height is raised to the
+	// state's height, whereas a recorded height ahead of the recorded state cannot be repaired
+	// and leaves the node unable to produce blocks.
 	if err = m.updateState(ctx, newState); err != nil {
 		return fmt.Errorf("failed to update state: %w", err)
+	}
+
+	// Update the store height before submitting to the DA layer but after committing to the DB
+	if err = m.store.SetHeight(ctx, headerHeight); err != nil {
+		return err
 	}
 
 	m.recordMetrics(data)
